@@ -41,9 +41,44 @@ def strategy(tier):
     })
 
 
+def run_idle_period(case):
+    """engine T, idle gthread loop: how long can an idle, healthy worker go between two heartbeats, compared with `timeout`?
+    (the virtual clock advances by exactly what the loop asks its selector to wait for)"""
+    from vlib import tsim
+    T = case["timeout"]
+    sim = tsim.Sim(2, 10, 2, [])
+    beats = []
+    w = sim.build()
+    w.timeout = T / 2.0
+    w.notify = lambda: (beats.append(sim.clock), sim.on_iteration())
+    orig_select = w.poller.select
+
+    def select(timeout=None):
+        sim.clock += timeout or 0          # nothing is ever ready: the call blocks for its full timeout
+        if len(beats) >= 6:
+            w.alive = False
+        return []
+    w.poller.select = select
+    saved = (tsim.G.time, tsim.G.futures)
+    tsim.G.time, tsim.G.futures = tsim.SimTime(sim), tsim.SimFutures(sim)
+    sim.events = [["time", 0]] * 100
+    try:
+        w.run()
+    finally:
+        tsim.G.time, tsim.G.futures = saved
+    gaps = [b - a for a, b in zip(beats, beats[1:])]
+    period = max(gaps) if gaps else 0
+    vio = []
+    if period >= T:
+        vio.append(Violation("healthy-never-killed", "C11/idle-heartbeat-period-not-below-timeout:gthread",
+                             observed={"heartbeat_period": period, "timeout": T, "worker_wait_bound": T / 2.0},
+                             expected="an idle worker refreshes its heartbeat more often than every `timeout` seconds"))
+    return Outcome(vio, True, ["engine:Tidle", "timeout:%d" % T], sample={"case": case, "period": period})
+
+
 def extra_cases(tier, seed, shard, nshards):
     from checks import c11_real
-    cs = c11_real.cells(tier)
+    cs = c11_real.cells(tier) + [{"engine": "Tidle", "timeout": t} for t in (1, 2, 3, 30)]
     for i, c in enumerate(cs):
         if (i + seed) % nshards == shard:
             yield c
@@ -56,6 +91,8 @@ def run_case(case):
     if case.get("engine") == "R":
         from checks import c11_real
         return c11_real.run_case(case)
+    if case.get("engine") == "Tidle":
+        return run_idle_period(case)
     T = case["timeout"]
     k = ksim.Kernel(case["sched"], case["events"], quiesce_steps=T + 8)
     out = ksim.run_arbiter(k, {"workers": case["workers"], "timeout": T, "graceful_timeout": 3})
